@@ -56,6 +56,11 @@ CLIENT_VICTIM_KINDS = {  # sent by the adversarial SERVER
     "CERT/empty": ("certificate", {"chain": []}),
     "CV": ("certificate_verify", {"key": "leaf"}),
     "CV/spare": ("certificate_verify", {"key": "spare"}),
+    # a chain the client does not trust, with a CertificateVerify that IS a correct signature by that chain's
+    # key: possession is proved, the identity is not - the refusal comes at CertificateVerify at the latest and
+    # must leave the state where it was
+    "CERT/untrusted": ("certificate", {"chain": "@untrusted_chain"}),
+    "CV/untrusted": ("certificate_verify", {"key": "@untrusted_key"}),
     "FIN": ("finished", {}),
     "FIN/bad": ("finished", {"corrupt": True}),
     "KU": ("key_update", {}),
@@ -141,8 +146,9 @@ class Ref:
                                               the state must be next_state
     """
 
-    def __init__(self, role, offered_psk=False, request_cert=False, client_psk=False):
+    def __init__(self, role, offered_psk=False, request_cert=False, client_psk=False, verify_chain=True):
         self.role = role
+        self.verify_chain = verify_chain    # False: verify_mode=CERT_NONE (any chain, but the signature must fit it)
         self.offered_psk = offered_psk      # client victim offered a ticket
         self.request_cert = request_cert    # server victim sent CertificateRequest
         self.client_psk = client_psk        # adversarial client offers a valid PSK
@@ -150,6 +156,7 @@ class Ref:
         self.psk_selected = False
         self.hello_done = False             # SH accepted (client) / CH accepted (server)
         self.peer_finished_verified = False
+        self.untrusted_chain = False        # the Certificate taken last carried the untrusted chain
 
     def classify(self, label):
         s = self.state
@@ -177,16 +184,31 @@ class Ref:
                     return ("accept", "WAIT_CV")
                 if label == "CERT/empty":
                     return ("content",)
+                if label == "CERT/untrusted":
+                    return ("accept_optional", "WAIT_CV")   # may be refused here already, or at CertificateVerify
             elif s == "WAIT_CERT":
                 if label == "CERT":
                     return ("accept", "WAIT_CV")
                 if label == "CERT/empty":
                     return ("content",)
+                if label == "CERT/untrusted":
+                    return ("accept_optional", "WAIT_CV")
             elif s == "WAIT_CV":
-                if label == "CV":
-                    return ("accept", "WAIT_FINISHED")
-                if label == "CV/spare":
-                    return ("content",)
+                if self.untrusted_chain and not self.verify_chain:
+                    # the chain is not validated, the signature must still be by the presented certificate's key
+                    if label == "CV/untrusted":
+                        return ("accept", "WAIT_FINISHED")
+                    if label in ("CV", "CV/spare"):
+                        return ("content",)
+                elif self.untrusted_chain:
+                    # whatever signs it: the presented chain does not lead to a trusted root
+                    if label in ("CV", "CV/spare", "CV/untrusted"):
+                        return ("content",)
+                else:
+                    if label == "CV":
+                        return ("accept", "WAIT_FINISHED")
+                    if label in ("CV/spare", "CV/untrusted"):
+                        return ("content",)
             elif s == "WAIT_FINISHED":
                 if label == "FIN":
                     return ("accept", "CONNECTED")
@@ -223,6 +245,8 @@ class Ref:
         return ("unexpected",)
 
     def apply(self, label, nxt):
+        if label.startswith("CERT"):
+            self.untrusted_chain = label == "CERT/untrusted"
         if self.state == "WAIT_SH":
             self.hello_done = True
             self.psk_selected = label == "SH/psk0"
@@ -260,11 +284,24 @@ def material():
         with open(certs.path("ca.pem"), "rb") as f:
             _MAT["cadata"] = f.read()
         _MAT["x509"] = x509.load_der_x509_certificate(_MAT["chain"][0])
+        # a chain the client does NOT trust (self-signed leaf for the right name) and its key
+        with open(certs.path("selfsigned.pem"), "rb") as f:
+            _MAT["untrusted_chain"] = R.load_pem_chain(f.read())
+        with open(certs.path("selfsigned.key"), "rb") as f:
+            _MAT["untrusted_key"] = R.load_pem_key(f.read())
     return _MAT
 
 
 CLIENT_TP = bytes.fromhex("0104800075300408ffffffffffffffff")  # opaque to TLS
 SERVER_TP = bytes.fromhex("0104800075300e0104")
+
+
+def _resolve(kk):
+    kind, kw = kk
+    if any(isinstance(v, str) and v.startswith("@") for v in kw.values()):
+        m = material()
+        kw = {k: (m[v[1:]] if isinstance(v, str) and v.startswith("@") else v) for k, v in kw.items()}
+    return kind, kw
 
 
 def new_buffers():
@@ -318,7 +355,7 @@ class World:
                 import ssl
 
                 self.victim._verify_mode = ssl.CERT_NONE
-            self.ref = Ref("client", offered_psk=cfg["ticket"])
+            self.ref = Ref("client", offered_psk=cfg["ticket"], verify_chain=not cfg.get("verify_none"))
             self.kinds = CLIENT_VICTIM_KINDS
             self.adv = R.ServerAdversary(m["chain"], m["leaf"], m["spare"], alpn="h3",
                                          ee_extensions=[(R.EXT_QUIC_TRANSPORT_PARAMETERS, SERVER_TP)],
@@ -625,7 +662,7 @@ def run_history(variant, history, mode="each", trace=None):
         refusals = sum(1 for o in outcomes if not o.startswith("accepted"))
     else:
         for i, label in enumerate(history):
-            kind, kw = w.kinds[label]
+            kind, kw = _resolve(w.kinds[label])
             cls = w.ref.classify(label)
             ref_before = w.ref.state
             deep_before = w.deep()
@@ -690,7 +727,7 @@ def _run_concat(w, history, outcomes, trace):
     keys_allowed_ref = None
     raws = []
     for i, label in enumerate(history):
-        kind, kw = w.kinds[label]
+        kind, kw = _resolve(w.kinds[label])
         cls = w.ref.classify(label)
         if i == 0:
             raw = w.adv.make(kind, **kw)
@@ -805,7 +842,8 @@ def part_start_row(ctx):
     cells = 0
     outcomes = set()
     donor = World("c_full").start()   # an adversary primed with *another* client's hello
-    for label, (kind, kw) in CLIENT_VICTIM_KINDS.items():
+    for label, kk in CLIENT_VICTIM_KINDS.items():
+        kind, kw = _resolve(kk)
         raw = donor.adv.make(kind, **kw)
         w = World("c_full")
         exc = w.feed(raw)
@@ -907,7 +945,7 @@ def part_selfcheck(ctx):
         w = World(variant).start()
         ok = True
         for label in hist:
-            kind, kw = w.kinds[label]
+            kind, kw = _resolve(w.kinds[label])
             raw = w.adv.make(kind, **kw)
             if w.feed(raw) is not None:
                 ok = False   # reported by the table part as legal_refused
@@ -1020,7 +1058,8 @@ def strengths(seq, alts):
 
 SEQ_WORLDS = {
     # name -> (variant, hello label, letters, alternatives, literal legal flights)
-    "c_full": ("c_full", "SH", ("EE", "CR", "CERT", "CV", "FIN"), {"CV": ("CV", "CV/spare"), "EE": ("EE", "EE/early", "EE/unk"), "CERT": ("CERT", "CERT/empty")},
+    "c_full": ("c_full", "SH", ("EE", "CR", "CERT", "CV", "FIN"),
+               {"CV": ("CV", "CV/spare", "CV/untrusted"), "EE": ("EE", "EE/early", "EE/unk"), "CERT": ("CERT", "CERT/empty", "CERT/untrusted")},
                {("EE", "CERT", "CV", "FIN"), ("EE", "CR", "CERT", "CV", "FIN")}),
     "c_noverify": ("c_noverify", "SH", ("EE", "CERT", "CV", "FIN"), {"CV": ("CV", "CV/spare"), "CERT": ("CERT", "CERT/empty")},
                    {("EE", "CERT", "CV", "FIN")}),
@@ -1052,7 +1091,10 @@ def sequence_jobs(plan, extra_slice=None):
             b_ = multiset_orderings(letters, mult, maxlen)
             a_ = dict(alts)
             if not ee_flavours:
+                # flavours the victim MAY refuse or take (optional outcomes) only in the runs that judge
+                # message by message
                 a_.pop("EE", None)
+                a_ = {k: tuple(x for x in v if not x.endswith("/untrusted")) for k, v in a_.items()}
             s_ = [s for b in b_ for s in strengths(b, a_)]
             if len(s_) > len(seqs):
                 base_seqs, seqs = b_, s_
@@ -1067,6 +1109,7 @@ def sequence_jobs(plan, extra_slice=None):
             have = set(j[1] for j in jobs if j[2] == "each")
             a_ = dict(alts)
             a_.pop("EE", None)
+            a_ = {k: tuple(x for x in v if not x.endswith("/untrusted")) for k, v in a_.items()}
             pool = [s for b in multiset_orderings(letters, emult, elen) for s in strengths(b, a_)]
             for i, s in enumerate(pool):
                 if i % n == k and (hello,) + s not in have:
